@@ -13,7 +13,7 @@ import NoirVerif.Model.Placement
 import NoirVerif.Model.Router
 namespace Noir.Route
 open Noir.Placement (Coord)
-open Noir.Router (Endpoint senders routeGroups routeData)
+open Noir.Router (Endpoint)
 
 /-- a set-up `RoutingEnd` -/
 structure State where
@@ -29,8 +29,8 @@ structure State where
 /-- `setup` (route.rs:209-222): all non-fragile connections, sorted (`sort_unstable_by_key` on
     distinct keys), then `setup_endpoints`; `none` = one of its `expect`/`assert!` fails. -/
 def setup (meBlock : Nat) (routes : List Nat) (next : List (Coord × Bool)) : Option State :=
-  let ss := senders { strategy := .onlyOne } meBlock next
-  (routeGroups routes ss).map fun gs => { senders := ss, groups := gs }
+  let ss := Router.senders { strategy := .onlyOne } meBlock next
+  (Router.routeGroups routes ss).map fun gs => { senders := ss, groups := gs }
 
 variable {α : Type}
 
@@ -46,7 +46,7 @@ def step (preds : List (α → Bool)) (index : Nat) (st : State) (e : Elem α) :
     -- "Broadcast messages" (route.rs:233-242): every sender of every endpoint
     | .wm _ | .far | .term => some st.groups.flatten
     -- "Direct messages" (route.rs:244-260): first matching endpoint only; unmatched: nothing
-    | .item a | .ts a _ => routeData st.groups (accepts preds a) index
+    | .item a | .ts a _ => Router.routeData st.groups (accepts preds a) index
     | .flushBatch => some []
   match targets with
   | none => ({ st with panicked := true }, [])          -- `indexes[index]` out of range
